@@ -32,7 +32,7 @@ ALLOW = {
     ("insns", "OffsetOperandStub.encode.<locals>.fixup_label", "lhs"): "idempotent: second fix-up leaves the tree unchanged (vc encode-twice[offset])",
     ("insns", "OffsetOperandStub.encode.<locals>.fixup_label", "rhs"): "idempotent (vc encode-twice[offset])",
     ("insns", "OffsetOperandStub.encode.<locals>.fixup_label", "operand"): "idempotent (vc encode-twice[offset])",
-    ("operators", "wrap_impure.<locals>.fn", "value"): "FINDING D3: the cached value depends on the state of the first evaluation (vc resolve-twice[impure])",
+    ("operators", "wrap_impure.<locals>.fn", "value"): "memo keyed by the argument values (since fix D3/D48): the value returned is a function of the arguments of THIS evaluation (vc resolve-twice[*])",
     ("types", "AngleBracketedChar.resolve", "reported_error"): "diagnostics only: the returned string is '' on the first and on later calls",
     ("types", "Number.resolve", "reported_invalid_base8"): "diagnostics only: the returned value does not depend on it (C05 unit Number.resolve: value both times)",
     ("types", "CharLiteral.resolve", "evaluated_value"): "cache of a function of the literal and the (per-run constant) output charset",
@@ -172,7 +172,7 @@ def unit_resolve_twice(eng, opname):
             w2, err2 = c05.spec_infix(op, I["a2"], I["b"])
         else:
             w2, err2 = c05.spec_prefix(op, I["a2"]), z3.BoolVal(False)
-        region = (I["a1"] != I["a2"]) if "D3" in common.ACTIVE_FINDINGS else None
+        region = None
         eng.prove("second-evaluation-in-a-different-state-denotes-the-operator-applied-to-the-second-state's-operands", z3.Or(err2, final(val[1]) == w2), region=region)
     r = verify(eng, name, run, post, func="operators.%s.resolve (twice)" % ("InfixOperator" if infix else "UnaryOperator"))
     for o_ in r["obligations"]:
@@ -209,7 +209,10 @@ def gen_pairs():
 
 
 PAIRS = PAIRS + gen_pairs()
-D3_PAIRS = [(".repeat 3 { .word ./2 }\n", ".word ./2\n.word ./2\n.word ./2\n"), (".repeat 2 { .word . _ 1 }\n", ".word . _ 1\n.word . _ 1\n")]
+# impure operators on '.' in a repeated body (D3/D48, fixed): part of the corpus
+D3_PAIRS = [(".repeat 3 { .word ./2 }\n", ".word ./2\n.word ./2\n.word ./2\n"), (".repeat 2 { .word . _ 1 }\n", ".word . _ 1\n.word . _ 1\n"),
+            (".repeat 3 { .word .<<1, .>>1, .%7 }\n", "\n".join([".word .<<1, .>>1, .%7"] * 3) + "\n")]
+PAIRS += D3_PAIRS
 
 
 def unit_rac(eng):
@@ -311,14 +314,9 @@ def witness_D40(tree):
     return bool(out), "'.repeat 2 { .word 1 / .end / .word 2 }' / '.word 3' vs '.word 1': %s" % (out[:1],)
 
 
-def witness_D3(tree):
-    jobs, out = _pairs(tree, D3_PAIRS)
-    return bool(out), "repeat vs unrolled: %s" % (out[:1],)
-
-
 def witness_D4(tree):
     jobs, out = _pairs(tree, [PAIRS[2]])
     return bool(out), "repeat vs unrolled: %s" % (out[:1],)
 
 
-FINDING_WITNESS = {"D3": witness_D3, "D4": witness_D4, "D40": witness_D40}
+FINDING_WITNESS = {"D4": witness_D4, "D40": witness_D40}
